@@ -104,6 +104,9 @@ def kind_facts(ctx, cls_name: str) -> KindFacts:
     kf = KindFacts(cls_name, spec, var)
     selfname = spec.node.args.args[0].arg
 
+    colls: Dict[str, set] = {}          # local name -> descriptors of the elements of the collection it holds
+    _PASS = {'list', 'tuple', 'sorted', 'reversed', 'iter', 'set', 'frozenset'}
+
     def desc(e: ast.AST, loops: Dict[str, str]) -> Optional[str]:
         e = _strip_default(e)
         if isinstance(e, ast.Name):
@@ -120,6 +123,60 @@ def kind_facts(ctx, cls_name: str) -> KindFacts:
             return f'{b}.{e.func.attr}()' if b is not None else None
         return None
 
+    def elems(e: ast.AST, loops: Dict[str, str], depth: int = 0) -> Optional[set]:
+        """Descriptors of the elements of a collection-valued expression: a declared collection of the blueprint, `chain(a, b)`, `[*a, b]`, `a + b`, a
+        comprehension over such a collection, a local list built by appends."""
+        if depth > 6:
+            return None
+        e = _strip_default(e)
+        if isinstance(e, ast.Name) and e.id in colls:
+            return set(colls[e.id])
+        if isinstance(e, ast.Call) and not e.keywords and e.args:
+            fn = norm(e.func).split('.')[-1]
+            if fn == 'chain' and isinstance(e.func, (ast.Name, ast.Attribute)) and not (isinstance(e.func, ast.Attribute) and e.func.attr == 'from_iterable'):
+                out: set = set()
+                for a in e.args:
+                    x = elems(a, loops, depth + 1)
+                    if x is None:
+                        return None
+                    out |= x
+                return out
+            if fn in _PASS and isinstance(e.func, ast.Name) and len(e.args) == 1:
+                return elems(e.args[0], loops, depth + 1)
+        if isinstance(e, (ast.Tuple, ast.List, ast.Set)):
+            out = set()
+            for x in e.elts:
+                if isinstance(x, ast.Starred):
+                    y = elems(x.value, loops, depth + 1)
+                    if y is None:
+                        return None
+                    out |= y
+                else:
+                    d = desc(x, loops)
+                    if d is None:
+                        return None
+                    out.add(d)
+            return out
+        if isinstance(e, ast.BinOp) and isinstance(e.op, ast.Add):
+            a, b = elems(e.left, loops, depth + 1), elems(e.right, loops, depth + 1)
+            return None if a is None or b is None else a | b
+        if isinstance(e, (ast.GeneratorExp, ast.ListComp, ast.SetComp)) and len(e.generators) == 1 and isinstance(e.generators[0].target, ast.Name):
+            g = e.generators[0]
+            src = elems(g.iter, loops, depth + 1)
+            if src is None:
+                return None
+            out = set()
+            for d0 in src:
+                lp = dict(loops)
+                lp[g.target.id] = d0
+                d = desc(e.elt, lp)
+                if d is None:
+                    return None
+                out.add(d)
+            return out
+        d = desc(e, loops)
+        return {f'elem({d})'} if d is not None else None
+
     def walk(stmts: List[ast.stmt], conds: List[str], loops: Dict[str, str], top: bool):
         for st in stmts:
             if isinstance(st, ast.If):
@@ -129,11 +186,14 @@ def kind_facts(ctx, cls_name: str) -> KindFacts:
                 walk(st.orelse, conds + [f'not({norm(st.test)})'], loops, False)
                 continue
             if isinstance(st, ast.For):
-                lp = dict(loops)
-                d = desc(st.iter, loops)
-                if isinstance(st.target, ast.Name):
-                    lp[st.target.id] = f'elem({d})' if d is not None else f'elem(?{norm(st.iter)[:30]})'
-                walk(st.body, conds, lp, False)
+                src = elems(st.iter, loops)
+                if src is None:
+                    src = {f'?{norm(st.iter)[:30]}'}
+                for d0 in sorted(src):
+                    lp = dict(loops)
+                    if isinstance(st.target, ast.Name):
+                        lp[st.target.id] = d0
+                    walk(st.body, conds, lp, False)
                 walk(st.orelse, conds, loops, False)
                 continue
             if isinstance(st, (ast.With, ast.Try)):
@@ -143,8 +203,8 @@ def kind_facts(ctx, cls_name: str) -> KindFacts:
                 continue
             if isinstance(st, ast.Raise) and top:
                 kf.raises_unconditionally = True
-            if isinstance(st, ast.Assign) and len(st.targets) == 1:
-                t = st.targets[0]
+            if isinstance(st, (ast.Assign, ast.AnnAssign)) and (isinstance(st, ast.AnnAssign) or len(st.targets) == 1) and getattr(st, 'value', None) is not None:
+                t = st.targets[0] if isinstance(st, ast.Assign) else st.target
                 if isinstance(t, ast.Attribute) and t.attr == 'parser' and norm(st.value) == selfname:
                     d = desc(t.value, loops)
                     kf.parser_sets.setdefault(d if d is not None else f'?{norm(t.value)[:40]}', []).append((st, list(conds)))
@@ -154,26 +214,47 @@ def kind_facts(ctx, cls_name: str) -> KindFacts:
                     if d is not None:
                         kf.stores.append((f'self.{t.attr}', 'assign', d, st, list(conds)))
                         continue
-                if isinstance(t, ast.Name) and isinstance(_strip_default(st.value), (ast.Name, ast.Attribute, ast.Call)):
-                    d = desc(st.value, loops)
-                    if d is not None:
-                        loops[t.id] = d        # alias
+                if isinstance(t, ast.Name):
+                    v = _strip_default(st.value)
+                    d = desc(st.value, loops) if isinstance(v, (ast.Name, ast.Attribute, ast.Call)) else None
+                    if d is not None and not (isinstance(v, ast.Name) and v.id in colls):
+                        loops[t.id] = d        # alias of one object (or of a declared collection: its elements are elem(d))
+                        colls.pop(t.id, None)
+                        continue
+                    es = elems(st.value, loops) if not (isinstance(v, (ast.List, ast.Tuple)) and not v.elts) else set()
+                    if es is not None and (isinstance(v, (ast.List, ast.Tuple, ast.Set, ast.GeneratorExp, ast.ListComp, ast.SetComp, ast.BinOp))
+                                           or (isinstance(v, ast.Call) and norm(v.func).split('.')[-1] in (_PASS | {'chain'})) or (isinstance(v, ast.Name) and v.id in colls)):
+                        colls[t.id] = es
+                        loops.pop(t.id, None)
                         continue
             for c in ast.walk(st):
                 if not isinstance(c, ast.Call):
                     continue
-                if isinstance(c.func, ast.Attribute) and c.func.attr in ('append', 'insert', 'extend', 'add', 'appendleft') and norm(c.func.value).startswith(selfname + '.') and c.args:
-                    d = desc(c.args[-1], loops)
-                    if d is not None:
-                        kf.stores.append((norm(c.func.value).replace(selfname + '.', 'self.', 1), c.func.attr, d, c, list(conds)))
+                if isinstance(c.func, ast.Attribute) and c.func.attr in ('append', 'insert', 'extend', 'add', 'appendleft') and c.args:
+                    recv = norm(c.func.value)
+                    single = c.func.attr != 'extend'
+                    ds = None
+                    if single:
+                        d = desc(c.args[-1], loops)
+                        ds = {d} if d is not None else None
+                    else:
+                        ds = elems(c.args[-1], loops)
+                    if recv.startswith(selfname + '.') and ds is not None:
+                        for d in sorted(ds):
+                            kf.stores.append((recv.replace(selfname + '.', 'self.', 1), 'append' if c.func.attr == 'extend' else c.func.attr, d, c, list(conds)))
+                        continue
+                    if isinstance(c.func.value, ast.Name) and c.func.value.id in colls and ds is not None:
+                        colls[c.func.value.id] |= ds          # a local list filled element by element
                         continue
                 # a call that hands the blueprint / an element / the parser to code that was not followed
                 args = list(c.args) + [k.value for k in c.keywords]
                 recv = c.func.value if isinstance(c.func, ast.Attribute) else None
-                involved = [a for a in args if desc(a, loops) is not None or norm(a) == selfname]
+                involved = [a for a in args if desc(a, loops) is not None or norm(a) == selfname or (isinstance(a, ast.Name) and a.id in colls)]
                 if recv is not None and (desc(recv, loops) is not None or norm(recv) == selfname) and c.func.attr not in _BUILTIN_METHODS:
                     involved.append(recv)
-                if involved and not (isinstance(c.func, ast.Name) and c.func.id in ('isinstance', 'len', 'type', 'repr', 'str', 'id', 'bool', 'list', 'tuple')):
+                if involved and not (isinstance(c.func, ast.Name) and c.func.id in ('isinstance', 'len', 'type', 'repr', 'str', 'id', 'bool', 'list', 'tuple', 'chain', 'iter', 'sorted',
+                                                                                    'reversed', 'set', 'frozenset')) \
+                        and not (isinstance(c.func, ast.Attribute) and c.func.attr == 'chain'):
                     kf.opaque.append(norm(c)[:70])
     walk(spec.node.body, [], {}, True)
     cache[cls_name] = kf
